@@ -215,12 +215,16 @@ func PerformJoin(
 	// If the remote server returned an event in the "event" key of
 	// the send_join response then we should use that instead. It may
 	// contain signatures that we don't know about.
+	// It has to be a join of ours still: nothing below checks the signatures
+	// of this event, so we only take it if it carries a valid signature from
+	// us (and from every other server that has to sign a join). Otherwise we
+	// carry on with the event we built.
 	if len(respSendJoin.GetJoinEvent()) > 0 {
 		var remoteEvent PDU
 		remoteEvent, err = verImpl.NewEventFromUntrustedJSON(respSendJoin.GetJoinEvent())
 		if err == nil && isWellFormedJoinMemberEvent(
 			remoteEvent, input.RoomID, senderID,
-		) {
+		) && isSignedJoinEvent(ctx, remoteEvent, input) {
 			event = remoteEvent
 		}
 	}
@@ -367,6 +371,18 @@ func isWellFormedJoinMemberEvent(event PDU, roomID *spec.RoomID, senderID spec.S
 		return false
 	}
 	return true
+}
+
+// isSignedJoinEvent returns true if the join event returned by the remote server
+// is signed by every server that has to sign it, the joining user's own server
+// (that is us) first of all.
+func isSignedJoinEvent(ctx context.Context, event PDU, input PerformJoinInput) bool {
+	if event.Version() == RoomVersionPseudoIDs {
+		// TODO: events in pseudo ID rooms are signed with the user's room key, check
+		// that signature here too.
+		return true
+	}
+	return VerifyEventSignatures(ctx, event, input.KeyRing, input.UserIDQuerier) == nil
 }
 
 func checkEventsContainCreateEvent(events []PDU) error {
